@@ -72,13 +72,84 @@ package rlwe
 //@   property C03
 //@   requires encinv(enc)
 //@   requires isntt(sk.Value.Q) && mexp(sk.Value.Q) == 1
-//@   requires dom(c1) == 1 && mexp(c1) == 0
+//@   requires isntt(c1)
+//@   wlog mexp(c1) == 0 given uni(c1)
 //@   requires len(ct.Value) >= 1
+//@   assigns c1
 //@   case len(ct.Value) == 2 ; alias c1 = ct.Value[1]
 //@   case len(ct.Value) == 1
 //@   let c0 = ct.Value[0]
 //@   ensures val(c0) + val(c1) * val(sk.Value.Q) == fresh(XE, old(draws(XE)))
-//@   ensures draws(XE) == old(draws(XE)) + 1
-//@   ensures val(c1) == old(val(c1)) && mexp(c0) == 0 && mexp(c1) == 0
+//@   ensures draws(XE) == old(draws(XE)) + 1 && draws(UNIFORM) == old(draws(UNIFORM)) && isnil(err)
+//@   ensures mexp(c0) == 0 && mexp(c1) == 0 && uni(c1)
 //@   ensures indom(c0, ct.IsNTT)
 //@   ensures implies(len(ct.Value) == 2, indom(c1, ct.IsNTT))
+
+//@ afunc Encryptor.encryptZeroSkFromC1QP
+//@   property C03
+//@   requires encinv(enc)
+//@   requires isntt(sk.Value.Q) && mexp(sk.Value.Q) == 1 && isntt(sk.Value.P) && mexp(sk.Value.P) == 1 && val(sk.Value.P) == val(sk.Value.Q)
+//@   requires isntt(c1.Q) && isntt(c1.P)
+//@   wlog mexp(c1.Q) == 1 && mexp(c1.P) == 1 given uni(c1.Q) && uni(c1.P)
+//@   requires len(ct.Value) >= 1 && len(ct.Value[0].Q.Coeffs) >= 1
+//@   assigns c1
+//@   case len(ct.Value) == 2 ; alias c1 = ct.Value[1]
+//@   case len(ct.Value) == 1
+//@   let c0 = ct.Value[0]
+//@   let hasP = len(ct.Value[0].P.Coeffs) >= 1
+//@   ensures val(c0.Q) + val(c1.Q) * val(sk.Value.Q) == fresh(XE, old(draws(XE)))
+//@   ensures implies(hasP, val(c0.P) + val(c1.P) * val(sk.Value.Q) == fresh(XE, old(draws(XE))))
+//@   ensures draws(XE) == old(draws(XE)) + 1 && draws(UNIFORM) == old(draws(UNIFORM)) && isnil(err)
+//@   ensures mexp(c0.Q) == 1 && implies(hasP, mexp(c0.P) == 1)
+//@   ensures indom(c0.Q, ct.IsNTT) && implies(hasP, indom(c0.P, ct.IsNTT))
+//@   ensures implies(len(ct.Value) == 2, indom(c1.Q, ct.IsNTT))
+
+// secret keys are stored in the NTT domain with one Montgomery factor, the same secret on both bases
+//@ spec skinv(sk) = isntt(sk.Value.Q) && mexp(sk.Value.Q) == 1 && isntt(sk.Value.P) && mexp(sk.Value.P) == 1 && val(sk.Value.P) == val(sk.Value.Q)
+
+//@ afunc Encryptor.encryptZeroSk#ciphertext
+//@   property C03
+//@   dyn ct *Ciphertext
+//@   requires encinv(enc) && skinv(sk)
+//@   requires len(ct.Value[0].Coeffs) >= 1
+//@   case len(ct.Value) == 2
+//@   case len(ct.Value) == 1
+//@   let c0 = ct.Value[0]
+//@   let c1 = ite(len(ct.Value) == 2, 1, 0)
+//@   ensures implies(isnil(result), draws(XE) == old(draws(XE)) + 1 && draws(UNIFORM) == old(draws(UNIFORM)) + 1)
+//@   ensures implies(isnil(result) && len(ct.Value) == 2, val(c0) + val(ct.Value[1]) * val(sk.Value.Q) == fresh(XE, old(draws(XE))))
+//@   ensures implies(isnil(result) && len(ct.Value) == 2, uni(ct.Value[1]) && indom(ct.Value[1], ct.IsNTT) && indom(c0, ct.IsNTT) && mexp(c0) == 0)
+//@   ensures implies(isnil(result) && len(ct.Value) == 1, val(c0) + val(enc.buffQP[1].Q) * val(sk.Value.Q) == fresh(XE, old(draws(XE))) && uni(enc.buffQP[1].Q))
+
+//@ afunc Element.Resize
+//@   trusted only level changes are modelled: the degree must already match
+//@   requires len(op.Value) == degree + 1
+
+// public-key encryption without auxiliary modulus: (u*pk0 + e0, u*pk1 + e1) with two distinct error draws
+//@ afunc Encryptor.encryptZeroPkNoP
+//@   property C03
+//@   requires encinv(enc)
+//@   requires isntt(pk.Value[0].Q) && isntt(pk.Value[1].Q) && mexp(pk.Value[0].Q) == 1 && mexp(pk.Value[1].Q) == 1
+//@   requires len(ct.Value) == 2 && len(ct.Value[0].Coeffs) >= 1
+//@   let u = fresh(XS, old(draws(XS)))
+//@   ensures val(ct.Value[0]) == u * old(val(pk.Value[0].Q)) + fresh(XE, old(draws(XE)))
+//@   ensures val(ct.Value[1]) == u * old(val(pk.Value[1].Q)) + fresh(XE, old(draws(XE)) + 1)
+//@   ensures draws(XE) == old(draws(XE)) + 2 && draws(XS) == old(draws(XS)) + 1
+//@   ensures mexp(ct.Value[0]) == 0 && mexp(ct.Value[1]) == 0
+//@   ensures indom(ct.Value[0], ct.IsNTT) && indom(ct.Value[1], ct.IsNTT)
+
+// decryption: pt = c0 + c1*s (+ c2*s^2), metadata copied from the ciphertext
+//@ afunc Decryptor.Decrypt
+//@   property C03
+//@   unwind 4
+//@   requires isntt(d.sk.Value.Q) && mexp(d.sk.Value.Q) == 1
+//@   requires len(pt.Element.Value) == 1 && len(ct.Value[0].Coeffs) >= 1 && len(pt.Value.Coeffs) >= 1
+//@   case len(ct.Value) == 2 ; set pt.Value = pt.Element.Value[0]
+//@   case len(ct.Value) == 3 ; set pt.Value = pt.Element.Value[0]
+//@   requires indom(ct.Value[0], ct.IsNTT) && indom(ct.Value[1], ct.IsNTT) && mexp(ct.Value[0]) == 0 && mexp(ct.Value[1]) == 0
+//@   requires implies(len(ct.Value) == 3, indom(ct.Value[2], ct.IsNTT) && mexp(ct.Value[2]) == 0)
+//@   let s = val(d.sk.Value.Q)
+//@   ensures implies(len(ct.Value) == 2, val(pt.Value) == old(val(ct.Value[0])) + old(val(ct.Value[1])) * s)
+//@   ensures implies(len(ct.Value) == 3, val(pt.Value) == old(val(ct.Value[0])) + old(val(ct.Value[1])) * s + old(val(ct.Value[2])) * s * s)
+//@   ensures mexp(pt.Value) == 0 && indom(pt.Value, ct.IsNTT)
+//@   ensures iff(pt.IsNTT, ct.IsNTT) && iff(pt.IsMontgomery, ct.IsMontgomery) && iff(pt.IsBatched, ct.IsBatched) && pt.LogDimensions.Rows == ct.LogDimensions.Rows && pt.LogDimensions.Cols == ct.LogDimensions.Cols
